@@ -228,6 +228,9 @@ Section Model.
       mtry (await_ (IoTermClose c))
            (fun e => match e with
                      | ECancelled | ETimeout =>            (* _terminate_handled_exceptions *)
+                         (* the force close now races with the shielded graceful close that is still
+                            running (aiosqlite: Connection.stop() twice): outside the model *)
+                         mmod (fun s => set_oom s true) ;;
                          await_ (IoForceClose c) ;;
                          (if exn_eqb e ECancelled then mraise e else munit)
                      | _ => mraise e
@@ -257,7 +260,9 @@ Section Model.
   (* _ConnectionRecord.__close *)
   Definition rec_close_impl (ing term : bool) : M :=
     mget (fun s => match cur_conn s with
-                   | Some c => close_connection ing c term ;; mmod (set_cur_conn None)
+                   | Some c =>
+                       (* /repo d50803e: try: _close_connection(...) finally: self.dbapi_connection = None *)
+                       mfinally (close_connection ing c term) (mmod (set_cur_conn None))
                    | None => mraise EInternal
                    end).
   (* _ConnectionRecord.close *)
@@ -287,7 +292,8 @@ Section Model.
                    else mmod (set_cur_fairy false) ;; pool_return).
   (* _ConnectionRecord._checkin_failed *)
   Definition rec_checkin_failed (fairy_was_created : bool) : M :=
-    rec_invalidate true ;; rec_checkin fairy_was_created.
+    (* /repo d50803e: try: self.invalidate(e=err) finally: self.checkin(...) *)
+    mfinally (rec_invalidate true) (rec_checkin fairy_was_created).
 
   (* _ConnectionRecord.__connect; dispatch.connect runs outside the try *)
   Definition rec_connect : M :=
@@ -344,6 +350,8 @@ Section Model.
        (* /repo 51edfd0: the invalidated record goes back to the pool before the BaseException
           propagates, so that its slot is not lost *)
        mget (fun s => if has_rec && cur_fairy s then rec_checkin true else munit) ;;
+       (* /repo 356c0aa: the fairy no longer owns the record *)
+       mmod (fun s => match fo s with Some _ => set_fo s (Some (mkfairy false None)) | None => s end) ;;
        mraise e).
 
   (* _finalize_fairy.  [is_gc]: called by the weakref callback (ref is not None, fairy is None,
@@ -527,7 +535,8 @@ Section Model.
     mget (fun s =>
       (match txn s with Some _ => txn_close_impl false | None => munit end) ;;
       mget (fun s1 => if c_fairy s1 then
-                        fairy_close (match txn s with Some _ => true | None => false end) ;;
+                        (* /repo 4102dab: skip_reset = self._transaction.is_active, read before the close *)
+                        fairy_close (match txn s with Some a => a | None => false end) ;;
                         mmod (fun s => set_c_fairy s false)
                       else munit) ;;
       mmod (fun s => set_recon s false)).
